@@ -206,6 +206,8 @@ class Quantity:
             raise TypeError('The value must be a valid Python or Numpy numeric type.')
         if not np.isscalar(value) and not vprim.is_array(value):
             raise TypeError('The value must be a valid Python or Numpy numeric type.')
+        if vprim.is_array(value) and vprim.dtype_of(value) == 'object':
+            raise TypeError('The value must be a valid Python or Numpy numeric type.')
         if isinstance(value, bool):
             value = int(value)
         if unit.is_si or vprim.is_nonfinite(value):
@@ -369,7 +371,11 @@ class Quantity:
         return self.to(unit)
 
     def __ilshift__(self, unit):
-        return self.to(unit)
+        unit = _as_unit(unit)
+        if self.unit.dims != unit.dims:
+            raise UnitConversionError(f'{self.unit.name} and {unit.name} are not convertible')
+        self.unit = unit          # in place, as astropy does: every holder of this object sees the new unit
+        return self
 
     def __eq__(self, other):
         if isinstance(other, Quantity):
